@@ -122,8 +122,12 @@ func (f *Metrics) GlyphList() []string {
 }
 
 func (f *Metrics) FontBBoxPDF() (bbox rect.Rect) {
-	for _, g := range f.Glyphs {
-		bbox.Extend(g.BBox)
+	// Extend treats an all-zero rectangle as empty, so for degenerate glyph
+	// boxes the result can depend on the order of the glyphs: use a fixed one.
+	names := maps.Keys(f.Glyphs)
+	sort.Strings(names)
+	for _, name := range names {
+		bbox.Extend(f.Glyphs[name].BBox)
 	}
 	return bbox
 }
